@@ -36,6 +36,8 @@ inductive Instr
   | waitthread (l : Nat)
   | pause
   | waitParent (ms : Nat)                       -- `local.p0 wait d` where p0 is the spawning thread
+  | waittillParent (names : List Nat)           -- `local.p0 waittill n` / `waittill_any`: the source is a *thread* object
+  | notifyParent (n : Nat)                      -- `local.p0 notify n`
   | end_ (v : EndV)
   | spawn (o : Nat)
   deriving Repr, DecidableEq, Inhabited
@@ -469,6 +471,23 @@ def exec : Nat → State → Nat → Th → Instr → State
       let s := stop fuel s p
       let s := addTiming (s.setTh p (fun th => { th with ts := .timing })) p ms
       vmSuspend s p
+    | .waittillParent names =>
+      -- `Listener::WaitTill` on a thread object (threads are listeners); NIL / NULL receiver: script error
+      if th.parent == 0 || !s.alive th.parent then s else
+      let o := th.parent
+      match s.cur with
+      | none => s
+      | some c =>
+        names.foldl (fun s n =>
+          let s := { s with notify := Tbl.push s.notify (o, n) c }
+          let s :=
+            if !Tbl.hasOwner s.waitFor c then
+              let s := stop fuel s c
+              vmSuspend (s.setTh c (fun th => { th with ts := .waiting })) c
+            else s
+          { s with waitFor := Tbl.push s.waitFor (c, n) o }) s
+    | .notifyParent n =>
+      if th.parent == 0 || !s.alive th.parent then s else unregister fuel s th.parent n
     | .end_ ev =>
       -- End()/EndRef(): result into the shared cell, then `delete m_Thread`.  Ending with a NIL
       -- value is indistinguishable from a plain `end` for the host.
